@@ -52,20 +52,21 @@ Qed.
 
 (** * The optional insertion of the replayed header *)
 Lemma K_replay_insert ih ivs s hd r s1 :
-  K ih ivs s -> tinv s ->
+  K ih ivs s ->
   v_h (k_vot s) = hd_height hd -> hd_ok hd = true -> vs_ok (hd_next hd) = true -> hd_height hd + 1 < two64 ->
   negb (hd_height hd =? k_init_h s) && negb (bytes_eqb (hd_prev hd) (chdr_hash s)) = false ->
   pow_ok (hd_vals hd) -> pow_ok (hd_next hd) -> vs_keys (hd_next hd) <> [] ->
   replay_insert s hd r = Ok s1 ->
   K ih ivs s1 /\ pref ih ivs s s1.
 Proof.
-  intros HK HT Hh Hok Hnext Hb Hprev Hvals Hn Hkeys Hins.
+  intros HK Hh Hok Hnext Hb Hprev Hvals Hn Hkeys Hins.
   pose proof HK as (HI&HP&(Xc&(Nc&Nv&Nn)&(N1v&N1n)&Xk&Xs)). pose proof HI as (Hc&Ha&Hs&Hhi).
   pose proof (replay_checks_good _ _ _ _ r Hc Hh Hok Hnext Hb Hprev) as Hgood.
   destruct (cinv_replay_insert _ _ _ _ _ _ Hc Hgood Hins) as [Hc1 _].
   destruct (auth_replay_insert _ _ _ _ Ha Hins) as (Ha1&_).
-  destruct (replay_insert_total s hd r HT) as (s1'&E1&_&Hpok1). rewrite Hins in E1. inversion E1; subst s1'. clear E1.
-  specialize (Hpok1 (conj Hvals Hn)).
+  assert (Hpok1 : forall q, In q (v_phs (k_vot s) ++ [fake_ph hd r]) \/ In q (v_phs (k_nxt s)) -> hdr_wf (ph_hdr q)).
+  { intros q [Hq|Hq]; [|apply HP; right; exact Hq].
+    apply in_app_or in Hq as [Hq|[Hq|[]]]; [apply HP; left; exact Hq|subst q; split; assumption]. }
   pose proof (cinv_nhr _ _ _ Hc) as Hnhr. destruct (com_below _ _ _ Hc) as [Hlt _].
   (* the replayed header is like an accepted proposed header of the voting height *)
   assert (Hfine : ph_fine ih (st_hdrs s) (v_h (k_vot s)) hd).
@@ -152,21 +153,28 @@ Proof.
     eapply merge_sigs_true_nonempty; [exact Es|]. apply (Hne t sigs). left; reflexivity.
 Qed.
 
-Lemma K_replay_finish ih ivs s1 hd cp temp s' res :
+(** the part of [handle_replay] after the insertion of the header: the precommits are stored
+    with the round and the commit shift is evaluated *)
+Definition replay_store (s1 : kstate) (hd : hdr) (cp : cproof) (temp : pmap) : res (kstate * N) :=
+  let v := k_vot s1 in
+  let pc' := fold_left (fun m e => pm_set m (fst e) (snd e)) temp (v_pc v) in
+  let v1 := with_pc v pc' in
+  let v2 := with_sum v1 (sum_set_precommits (v_sum v1) (vs_pows (v_vals v1)) pc') in
+  let coll := map_to_sparse (vs_pkh (v_vals v2)) pc' in
+  let s2 := log_w (set_rounds (set_vot s1 v2) (rs_overwrite_pc (st_rounds s1) (hd_height hd) (cp_round cp) coll))
+                  (WPC (hd_height hd) (cp_round cp) coll) in
+  bind (check_voting_precommit_shift s2) (fun s3 => Ok (s3, 0)).
+
+Lemma K_replay_store ih ivs s1 hd cp temp s' res :
   K ih ivs s1 ->
   v_r (k_vot s1) = cp_round cp -> v_h (k_vot s1) = hd_height hd ->
   auth_pmap (vs_keys (v_vals (k_vot s1))) KPrecommit (v_h (k_vot s1)) (v_r (k_vot s1)) temp -> ne_pmap temp ->
-  replay_finish s1 hd cp temp = Ok (s', res) -> K ih ivs s' /\ pref ih ivs s1 s'.
+  temp <> [] ->
+  replay_store s1 hd cp temp = Ok (s', res) -> K ih ivs s' /\ pref ih ivs s1 s'.
 Proof.
-  intros HK Hr Hh Htemp Htne. pose proof HK as (HI&HP&(Xc&(Nc&Nv&Nn)&(N1v&N1n)&Xk&Xs)).
+  intros HK Hr Hh Htemp Htne Htnn. pose proof HK as (HI&HP&(Xc&(Nc&Nv&Nn)&(N1v&N1n)&Xk&Xs)).
   pose proof HI as (Hc&Ha&Hs&Hhi).
-  assert (Hsame : forall r0, Ok (s1, r0) = Ok (s', res) -> K ih ivs s' /\ pref ih ivs s1 s')
-    by (intros r0 E; inversion E; subst; split; [exact HK|apply pref_refl; exact Xs]).
-  unfold replay_finish.
-  destruct (pm_get temp (hd_hash hd)) as [hp|] eqn:Hg; [|apply Hsame].
-  assert (Htnn : temp <> []) by (intros E; rewrite E in Hg; discriminate).
-  unfold bind at 1. destruct (byz_majority _); [|discriminate].
-  destruct (_ <? _); [apply Hsame|]. cbv zeta.
+  unfold replay_store. cbv zeta.
   set (v := k_vot s1).
   set (pc' := fold_left (fun m e => pm_set m (fst e) (snd e)) temp (v_pc v)).
   set (v1 := with_pc v pc').
@@ -230,24 +238,29 @@ Proof.
   split; [exact K3|eapply pref_trans; eassumption].
 Qed.
 
-(** * handleReplayedHeader *)
+(** * handleReplayedHeader: validated first (a rejected replay is the identity), then applied *)
+Lemma tinv_jump_until' fuel : forall s r, tinv s -> tinv (jump_until fuel s r).
+Proof.
+  induction fuel as [|f IH]; intros s r H; cbn [jump_until]; [exact H|].
+  destruct (_ <? _); [|exact H]. apply IH. split; [apply aok_jump, H|apply pok_jump, H].
+Qed.
+
 Lemma K_handle_replay ih ivs s0 hd cp s' res :
   K ih ivs s0 -> tinv s0 -> hd_height hd + 1 < two64 ->
-  pow_ok (hd_next hd) -> vs_keys (hd_next hd) <> [] -> proofs_nonempty (cp_proofs cp) ->
+  pow_ok (hd_next hd) -> vs_keys (hd_next hd) <> [] ->
   handle_replay s0 hd cp = Ok (s', res) -> K ih ivs s' /\ pref ih ivs s0 s'.
 Proof.
-  intros HK0 HT0 Hb Hn Hkeys Hne. unfold handle_replay.
-  destruct (negb (hd_height hd =? _));
-    [intros E; inversion E; subst; split; [exact HK0|apply pref_refl; exact (proj2 (proj2 (proj2 (proj2 (proj2 (proj2 HK0))))))]|].
+  intros HK0 HT0 Hb Hn Hkeys. unfold handle_replay.
+  assert (Hsame : forall r0, Ok (s0, r0) = Ok (s', res) -> K ih ivs s' /\ pref ih ivs s0 s')
+    by (intros r0 E; inversion E; subst; split; [exact HK0|apply pref_refl; exact (proj2 (proj2 (proj2 (proj2 (proj2 (proj2 HK0))))))]).
+  destruct (negb (hd_height hd =? _)); [apply Hsame|].
   destruct (cp_round cp <? _); [discriminate|].
   destruct (K_jump_until ih ivs (N.to_nat (cp_round cp - v_r (k_vot s0))) s0 (cp_round cp) HK0) as [HK P0].
-  pose proof (tinv_jump_until (N.to_nat (cp_round cp - v_r (k_vot s0))) s0 (cp_round cp) HT0) as HT.
+  pose proof (tinv_jump_until' (N.to_nat (cp_round cp - v_r (k_vot s0))) s0 (cp_round cp) HT0) as HT.
   set (s := jump_until _ s0 _) in *.
   destruct ((v_r (k_vot s) =? cp_round cp) && (v_h (k_vot s) =? hd_height hd)) eqn:Hpos; cbn [negb]; [|discriminate].
   apply andb_true_iff in Hpos as [Hr Hh]. apply N.eqb_eq in Hr, Hh.
   pose proof HK as (HI&_&(_&(_&Nv&_)&_&_&Xs)).
-  assert (Hsame : forall r0, Ok (s, r0) = Ok (s', res) -> K ih ivs s' /\ pref ih ivs s0 s')
-    by (intros r0 E; inversion E; subst; split; [exact HK|exact P0]).
   destruct (hd_ok hd) eqn:Hok; cbn [negb]; [|apply Hsame].
   destruct (negb (hd_height hd =? k_init_h s) && negb (bytes_eqb (hd_prev hd) (chdr_hash s))) eqn:Hprev; [apply Hsame|].
   destruct (valset_equal (hd_vals hd) (v_vals (k_vot s)) && vs_ok (hd_vals hd)) eqn:Hveq; cbn [negb]; [|apply Hsame].
@@ -257,19 +270,23 @@ Proof.
     destruct HI as (_&_&[[Savail _] _]&_). destruct HT as [([A1 _]&_) _].
     unfold pow_ok. rewrite <- Savail. lia. }
   destruct (vs_ok (hd_next hd)) eqn:Hnext; cbn [negb]; [|apply Hsame].
-  destruct (fold_left _ (cp_proofs cp) ([], true)) as [temp allv] eqn:Hf.
+  destruct (fold_left _ (signed_entries (cp_proofs cp)) ([], true)) as [temp allv] eqn:Hf.
   destruct allv; cbn [negb]; [|apply Hsame].
+  destruct (pm_get temp (hd_hash hd)) as [hp|] eqn:Hg; [|apply Hsame].
+  assert (Htnn : temp <> []) by (intros E; rewrite E in Hg; discriminate).
+  unfold bind at 1. destruct (byz_majority _); [|discriminate].
+  destruct (_ <? _); [apply Hsame|].
   fold (replay_insert s hd (cp_round cp)).
   unfold bind at 1. destruct (replay_insert s hd (cp_round cp)) as [s1|] eqn:Hins; [|discriminate].
-  destruct (K_replay_insert ih ivs s hd (cp_round cp) s1 HK HT Hh Hok Hnext Hb Hprev Hvals Hn Hkeys Hins) as [K1 P1].
+  destruct (K_replay_insert ih ivs s hd (cp_round cp) s1 HK Hh Hok Hnext Hb Hprev Hvals Hn Hkeys Hins) as [K1 P1].
   destruct (auth_replay_insert _ _ _ _ (proj1 (proj2 HI)) Hins) as (_&E1&E2&E3&E4).
   assert (Htemp : auth_pmap (vs_keys (v_vals (k_vot s1))) KPrecommit (v_h (k_vot s1)) (v_r (k_vot s1)) temp).
   { rewrite E1, E2, E3, Hr, Hh, <- Hkeys'. eapply replay_temp_auth; [| |exact Hf].
     - destruct HI as (_&(_&[_ Hvpc]&_)&_). rewrite Hkeys', <- Hr, <- Hh. exact Hvpc.
     - apply auth_pmap_nil. }
   assert (Htne : ne_pmap temp).
-  { eapply replay_temp_ne; [exact Hf|exact Hne|intros t p []]. }
-  intros Hfin. fold (replay_finish s1 hd cp temp) in Hfin.
-  destruct (K_replay_finish ih ivs s1 hd cp temp s' res K1 (eq_trans E2 Hr) (eq_trans E1 Hh) Htemp Htne Hfin) as [K2 P2].
+  { eapply replay_temp_ne; [exact Hf|apply signed_entries_nonempty|intros t p []]. }
+  intros Hfin. fold (replay_store s1 hd cp temp) in Hfin.
+  destruct (K_replay_store ih ivs s1 hd cp temp s' res K1 (eq_trans E2 Hr) (eq_trans E1 Hh) Htemp Htne Htnn Hfin) as [K2 P2].
   split; [exact K2|]. eapply pref_trans; [exact P0|]. eapply pref_trans; eassumption.
 Qed.
